@@ -280,6 +280,32 @@ theorem bboxSpec_eq (shape : List Nat) (data : List Int) (hlen : data.length = s
       simp only [List.foldl_cons]
       rw [min_eq_right (le_of_lt b1), min_self, max_eq_right (by omega : (0 : Int) ≤ p0.getD j 0 + 1), max_self]
 
+theorem nzPos_nil_iff (shape : List Nat) (data : List Int) :
+    ((List.range data.length).filter fun i => data.getD i 0 ≠ 0).map (unravelI shape) = [] ↔
+      data.all (· == 0) = true := by
+  rw [List.map_eq_nil_iff, List.filter_eq_nil_iff]
+  simp only [List.mem_range, decide_eq_true_eq, List.all_eq_true, beq_iff_eq]
+  constructor
+  · intro h v hv
+    obtain ⟨i, hi, rfl⟩ := List.getElem_of_mem hv
+    have := h i hi
+    simpa [List.getD_eq_getElem?_getD, hi] using this
+  · intro h i hi
+    have := h data[i] (List.getElem_mem hi)
+    simp [List.getD_eq_getElem?_getD, hi, this]
+
+/-- closed form: `none` for an all-zero image, otherwise `some` of what the model returns -/
+theorem bboxSpec_eq_ite (shape : List Nat) (data : List Int) (hlen : data.length = shapeSize shape)
+    (hnd : 0 < shape.length) :
+    bboxSpec shape data = (if data.all (· == 0) then none else some (bboxGeneric shape data)) ∧
+    (data.all (· == 0) = true → bboxGeneric shape data = List.replicate (2 * shape.length) 0) := by
+  obtain ⟨c1, c2⟩ := bboxSpec_eq shape data hlen hnd
+  by_cases h : data.all (· == 0) = true
+  · obtain ⟨a, b⟩ := c1 ((nzPos_nil_iff shape data).mpr h)
+    exact ⟨by rw [a, if_pos h], fun _ => b⟩
+  · have := c2 (fun e => h ((nzPos_nil_iff shape data).mp e))
+    exact ⟨by rw [this, if_neg h], fun e => absurd e h⟩
+
 /-- **the labeled.bbox oracle is the labeled.bbox model** (non-negative labels filling a shape of rank ≥ 1) -/
 theorem bboxLabeledSpec_eq (shape : List Nat) (labels : List Int) (n : Nat)
     (hnn : ∀ v ∈ labels, 0 ≤ v) (hlen : labels.length = shapeSize shape) (hnd : 0 < shape.length) :
